@@ -26,7 +26,7 @@ ASSUMPTIONS = [
 ]
 GATES = {
     "constant_ambiguity_volume": 1, "ambiguity_differs_on_less_than_1_percent_of_the_pixels": 1, "threshold_1": 1, "best_at_first_or_last_disparity": 1,
-    "two_steps_same_method_different_suffix": 1, "max_type_volume": 3, "pipelines_compared_with_and_without": 5,
+    "two_steps_same_method_different_suffix": 1, "confidence_step_whose_suffix_contains_a_dot": 1, "max_type_volume": 3, "pipelines_compared_with_and_without": 5,
     "regularisation_quantile_1": 1, "regularised_interval_bounds_after_ambiguity": 1, "regularisation_kernel_size_1": 1, "pixels_judged": 20000,
 }
 EPS = 4 * 1.2e-7
@@ -286,7 +286,8 @@ def _pipe(case, ctx):
     use_mfi = "interval_bounds" in conf_methods and "ambiguity" in conf_methods and rng.random() < 0.6
     if use_mfi:
         kinds.append("filter")
-    keys = pipes.keys_for(kinds, suffix_first={"cost_volume_confidence"} if rng.random() < 0.3 else None)
+    style = ["num", "alpha", "dotted", "word"][case["i"] % 4]
+    keys = pipes.keys_for(kinds, suffix_first={"cost_volume_confidence"} if rng.random() < 0.3 else None, style=style)
     params = {keys[0]: {"matching_cost_method": method, "window_size": w, "subpix": subpix}}
     for k in keys:
         kind = pipes.kind_of(k)
@@ -307,7 +308,7 @@ def _pipe(case, ctx):
         if cm in ("ambiguity", "risk"):
             p["eta_max"], p["eta_step"] = float(rng.choice([0.3, 0.7])), float(rng.choice([0.1, 0.05]))
         params[k] = p
-        sfx_of[k] = ("." + k.split(".")[1]) if "." in k else ""
+        sfx_of[k] = ("." + k.split(".", 1)[1]) if "." in k else ""  # the documentation: stepname.xxx, xxx any string
     same_twice = len(conf_methods) != len(set(conf_methods))
     # an interval_bounds step placed after an ambiguity step may be regularised with that ambiguity band
     amb_seen = None
@@ -387,6 +388,7 @@ def _pipe(case, ctx):
         ctx.violation("band-names", f"final bands {got_names}, expected {exp_names} (+ consistency band)", case,
                       situation="suffix" if any(sfx_of.values()) else "plain", desc=desc)
     ctx.gate("two_steps_same_method_different_suffix", int(same_twice))
+    ctx.gate("confidence_step_whose_suffix_contains_a_dot", int(any(k.count(".") >= 2 for k in keys if pipes.kind_of(k) == "cost_volume_confidence")))
     # the same pipeline without the confidence steps (and without the interval filter, which only touches bands)
     keys2 = [k for k in keys if pipes.kind_of(k) != "cost_volume_confidence" and params[k].get("filter_method") != "median_for_intervals"]
     pipe2 = pipes.build_pipe(keys2, params)
